@@ -19,6 +19,8 @@ func init() {
 			"at run time (packages resolve and execution/engine) no field of a cached plan node is assigned outside constructors (frozen: the tracing field); the plan cache stores a plan only after planning reported no error and after post-processing, under a key that is the hash of the printed operation; a planner is created per cache miss and pooled planning kits are reset before they return to the pool; " +
 			"per-request outputs of normalization (the variables remap) are never backed by pooled, reused storage. It does not decide option transparency (value level).",
 		Mutants: []Mutant{
+			{Name: "first contributing member describes the whole merged group (seeded change C09-11)", File: "v2/pkg/engine/postprocess/create_multi_fetch.go", Rule: "C09-R6", Key: "merged-deps",
+				Old: "\t\t\tseen[dep] = struct{}{}\n\t\t\tdeps = append(deps, dep)\n\t\t}\n", New: "\t\t\tseen[dep] = struct{}{}\n\t\t\tdeps = append(deps, dep)\n\t\t}\n\t\tif len(deps) > 0 {\n\t\t\tbreak\n\t\t}\n"},
 			{Name: "minifier tie-break removed (the repaired defect F5)", File: "v2/pkg/astminify/minify.go", Rule: "C09-R1", Key: "Minifier.apply/map-range1",
 				Old: "\t\treturn a.items[0].selectionSet - b.items[0].selectionSet\n", New: "\t\treturn 0\n"},
 			{Name: "authorization coordinates sorted without the field name", File: "v2/pkg/engine/postprocess/collect_authorization_coordinates.go", Rule: "C09-R1", Key: "collectAuthorizationCoordinates.Process/map-range1",
@@ -92,6 +94,7 @@ func runC09(r *fw.Run) {
 	c09Immutability(r)
 	c09PlanCache(r)
 	c09Pools(r)
+	mergedDependencies(r, "C09-R6") // multi-fetch merging is transparent only if the merged fetch waits for every member's prerequisites
 	if os.Getenv("VERIF_DEBUG_PLANWRITES") != "" {
 		for _, pkg := range []string{"resolve", "engine"} {
 			for _, w := range planWrites(p, pkg) {
